@@ -98,13 +98,20 @@ int main (int argc, char **argv) {
 			PSemaphore *s2; sem_t *raw2;
 			last_sem = NULL; s2 = p_semaphore_new (name, (pint) a, op[3] == 'o' ? P_SEM_ACCESS_OPEN : P_SEM_ACCESS_CREATE, NULL); raw2 = last_sem; in_api = 0;
 			if (s2 && op[3] != 'o') semraw = raw2;
+			if (s2 && op[3] == 'o') a = (raw2 == semraw) ? 1 : 0;          /* OPEN of the existing name: the very same kernel object (val = 1) */
 			vt_emit ("{\"e\":\"iret\",\"op\":\"%s\",\"res\":%d,\"elapsed\":0,\"val\":%ld,\"nsig\":%ld}", op, s2 ? 1 : 0, a, nsig);
 			if (s2) { if (op[3] == 'o') p_semaphore_free (s2); else { if (sem) p_semaphore_free (sem); sem = s2; } }
 		}
 		else if (!strcmp (op, "shmopen")) {
-			PShm *s2 = p_shm_new (name, (psize) a, P_SHM_ACCESS_READWRITE, NULL); in_api = 0;
-			vt_emit ("{\"e\":\"iret\",\"op\":\"shmopen\",\"res\":%d,\"elapsed\":0,\"val\":0,\"nsig\":%ld}", s2 ? 1 : 0, nsig);
-			if (s2) p_shm_free (s2);
+			/* the second handle must be the same object: it sees the byte stored through the first one, and closing it (it is no owner)
+			 * leaves the named segment in place - a third handle still finds that byte.  val = 1 (same bytes) + 2 (name still there) */
+			PShm *s2, *s3; int same = 0, still = 0;
+			if (shm) ((volatile unsigned char *) p_shm_get_address (shm))[0] = 0x5a;
+			s2 = p_shm_new (name, (psize) a, P_SHM_ACCESS_READWRITE, NULL); in_api = 0;
+			if (s2) { same = ((volatile unsigned char *) p_shm_get_address (s2))[0] == 0x5a; p_shm_free (s2); }
+			s3 = p_shm_new (name, (psize) a, P_SHM_ACCESS_READWRITE, NULL);
+			if (s3) { still = ((volatile unsigned char *) p_shm_get_address (s3))[0] == 0x5a; p_shm_free (s3); }
+			vt_emit ("{\"e\":\"iret\",\"op\":\"shmopen\",\"res\":%d,\"elapsed\":0,\"val\":%d,\"nsig\":%ld}", s2 ? 1 : 0, same + 2 * still, nsig);
 		}
 		else if (!strcmp (op, "acquire")) { pboolean r = p_semaphore_acquire (sem, NULL); int v = -1; in_api = 0; if (semraw) sem_getvalue (semraw, &v); vt_emit ("{\"e\":\"iret\",\"op\":\"acquire\",\"res\":%d,\"elapsed\":%ld,\"val\":%d,\"nsig\":%ld}", r ? 1 : 0, (long) (now_ms () - t0), v, nsig); }
 		else if (!strcmp (op, "release")) { pboolean r = p_semaphore_release (sem, NULL); in_api = 0; vt_emit ("{\"e\":\"iret\",\"op\":\"release\",\"res\":%d,\"elapsed\":0,\"val\":0,\"nsig\":%ld}", r ? 1 : 0, nsig); }
